@@ -73,8 +73,13 @@ def source_text(case):
     n, adj, kinds = case["n"], case["adj"], case["kinds"]
     lines = []
     if case.get("lib") == "builtin":
-        lines.append('Src = EEMSRead(InFileName = "%s", InFieldName = "a")' % case.get("csv", "/nonexistent.csv"))
-        lines.append("Fz = CvtToFuzzy(InFieldName = Src, TrueThreshold = 1, FalseThreshold = 0)")
+        # the acyclic feeder's data: mixed, or saturated (all cells fully true / fully false / zero), so that a command
+        # whose value is already decided by the feeder still has to notice the cycle behind its other inputs
+        sat = case.get("sat", "mixed")
+        lines.append('Src = EEMSRead(InFileName = "%s", InFieldName = "%s")' % (
+            case.get("csv", "/nonexistent.csv"), {"mixed": "a", "true": "o", "false": "z", "zero": "z"}[sat]))
+        lines.append("Fz = CvtToFuzzy(InFieldName = Src, TrueThreshold = %s, FalseThreshold = %s)" % {
+            "mixed": (1, 0), "true": (-5, -10), "false": (10, 5), "zero": (1, -1)}[sat])
     for i in case["order"]:
         refs = adj[i]
         if case.get("lib") == "builtin":
@@ -90,11 +95,15 @@ def source_text(case):
             if len(refs) == 2 and direct != 2 and not fuzzy:
                 lines.append("%s = %s(A = %s, B = %s)" % (name(i), "AMinusB" if direct else "ADividedByB", name(refs[0]), name(refs[1])))
                 continue
-            pos = (case.get("pick", 0) + i) % (len(refs) + 1)
+            pos = (case.get("poff", case.get("pick", 0)) + i) % (len(refs) + 1)
             items = [name(c) for c in refs]
             items.insert(pos, base)  # the data source stands anywhere in the list
-            variants = ["FuzzyOr", "FuzzyWeightedUnion", "FuzzyUnion", "FuzzyXOr"] if fuzzy else ["Sum", "WeightedSum", "WeightedMean", "Maximum", "Mean"]
-            cmd = variants[(case.get("pick", 0) // 2 + i) % len(variants)]
+            if "voff" in case:
+                variants = ["FuzzyOr", "FuzzyAnd", "FuzzyWeightedUnion", "FuzzyUnion", "FuzzyXOr", "FuzzySelectedUnion"] if fuzzy else [
+                    "Sum", "Multiply", "WeightedSum", "Minimum", "WeightedMean", "Maximum", "Mean"]
+            else:  # cases recorded before the variant offset existed
+                variants = ["FuzzyOr", "FuzzyWeightedUnion", "FuzzyUnion", "FuzzyXOr"] if fuzzy else ["Sum", "WeightedSum", "WeightedMean", "Maximum", "Mean"]
+            cmd = variants[(case.get("voff", case.get("pick", 0) // 2) + i) % len(variants)]
             if cmd == "FuzzyXOr" and len(items) < 2:
                 cmd = "FuzzyOr"
             extra = ""
@@ -103,6 +112,8 @@ def source_text(case):
                 if sum(ws) == 0:
                     ws[0] = 1
                 extra = ", Weights = [%s]" % ", ".join(str(w) for w in ws)
+            if cmd == "FuzzySelectedUnion":
+                extra = ", TruestOrFalsest = %s, NumberToConsider = 1" % ("Truest" if case.get("pick", 0) % 2 else "Falsest")
             lines.append("%s = %s(InFieldNames = [%s]%s)" % (name(i), cmd, ", ".join(items), extra))
             continue
         args = []
@@ -128,7 +139,7 @@ def csv_path():
         _CSV["d"] = d
         _CSV["p"] = os.path.join(d, "in.csv")
         with open(_CSV["p"], "w") as f:
-            f.write("a\n0.5\n1.5\n0\n")
+            f.write("a,o,z\n0.5,1,0\n1.5,1,0\n0,1,0\n")
     return _CSV["p"]
 
 
@@ -247,9 +258,17 @@ def small_graphs(ctx):
                 for order in orders:
                     yield {"n": n, "adj": adj, "kinds": kinds, "order": list(order), "lib": "testlib", "pick": bits + len(kinds[0])}
             if n <= 2 or bits % 7 == 0:
+                k = 0
                 for fuzzy in (False, True):
-                    for pick in range(0, 10, 3 if ctx.quick else 1):
-                        yield {"n": n, "adj": adj, "kinds": None, "order": list(range(n)), "lib": "builtin", "fuzzy": fuzzy, "pick": pick}
+                    for pick in range(3):
+                        for voff in range(6 if fuzzy else 7):
+                            for poff in range(n + 1):
+                                for sat in ("mixed", "true", "false", "zero"):
+                                    k += 1
+                                    if ctx.quick and (k + bits) % 4:
+                                        continue
+                                    yield {"n": n, "adj": adj, "kinds": None, "order": list(range(n)), "lib": "builtin",
+                                           "fuzzy": fuzzy, "pick": pick, "voff": voff, "poff": poff, "sat": sat}
 
 
 @st.composite
@@ -282,7 +301,8 @@ def larger_graphs(draw):
     kinds = [[draw(st.sampled_from("dl")) for _ in a] for a in adj]
     order = list(draw(st.permutations(list(range(n)))))
     lib = draw(st.sampled_from(["testlib", "testlib", "testlib", "builtin"]))
-    return {"n": n, "adj": adj, "kinds": kinds, "order": order, "lib": lib, "fuzzy": draw(st.booleans()), "pick": draw(st.integers(0, 9))}
+    return {"n": n, "adj": adj, "kinds": kinds, "order": order, "lib": lib, "fuzzy": draw(st.booleans()), "pick": draw(st.integers(0, 9)),
+            "voff": draw(st.integers(0, 6)), "poff": draw(st.integers(0, 5)), "sat": draw(st.sampled_from(["mixed", "true", "false", "zero"]))}
 
 
 PARTS = {"graph": check_case}
